@@ -81,6 +81,9 @@ def make_event(kind, n, addr_n):
         return {"message": "FooEvent%d" % (n % 3), "body": {"verif_n": n, "text": "e%d" % n}}
     if kind == "templated":
         return {"message": "AgentGroupDataUpdate", "body": {"AgentData": [{"AgentID": UUID(int=n)}], "GroupData": []}}
+    if kind == "templated_partial":
+        # a templated event may leave out a block altogether (simulators do for empty Variable blocks)
+        return {"message": "AgentGroupDataUpdate", "body": {"AgentData": [{"AgentID": UUID(int=n)}]}}
     if kind == "establish":
         return {"message": "EstablishAgentCommunication", "body": {"agent-id": UUID(int=1), "sim-ip-and-port": "%s:%d" % (ip, port), "seed-capability": seed}}
     if kind == "enable":
@@ -151,7 +154,7 @@ class Run:
         self.count("teardowns")
         return []
 
-    def poll(self, events, decisions, lose, status, undef_body, _repoll=False):
+    def poll(self, events, decisions, lose, status, undef_body, _repoll=0):
         """events: list of (kind, addr_n); returns violations"""
         out = []
         w = self.w
@@ -271,10 +274,10 @@ class Run:
                 out.append(("stream:%s" % kind, "poll (ack %r, status %d): viewer would receive %r, model %r" % (self.viewer_ack, status, received, expected)))
         if out:
             return out
-        if lose and not _repoll:
+        if int(lose) > _repoll:
             self.nontrivial = True
-            # the response never reached the viewer: it polls again with the same acknowledgement
-            return self.poll([("plain", 0)], [], False, 200, False, _repoll=True)
+            # the response never reached the viewer: it polls again with the same acknowledgement (and that answer may get lost too)
+            return self.poll([("plain", 0)], [], lose, 200, False, _repoll=_repoll + 1)
         if received_status == 200 and isinstance(received, dict) and "id" in received:
             self.viewer_ack = received["id"]
         return out
@@ -297,7 +300,7 @@ ALPHABET = [
     ("poll", [("plain", 0)], [], False, 200, False),
     ("poll", [("plain", 0), ("templated", 0)], ["swallow"], False, 200, False),
     ("poll", [("plain", 0)], ["swallow"], False, 200, False),
-    ("poll", [("plain", 0), ("plain", 0)], [], True, 200, False),
+    ("poll", [("plain", 0), ("templated_partial", 0)], [], 2, 200, False),
     ("poll", [("enable", 1), ("establish", 1)], ["one", "raise"], False, 200, False),
     ("poll", [], [], False, 502, False),
     ("poll", [], [], False, 200, True),
@@ -307,10 +310,10 @@ ALPHABET = [
     ("poll", [("plain", 0)], ["rewrite"], False, 200, False),
 ]
 
-EVENT = st.tuples(st.sampled_from(["plain", "plain", "templated", "establish", "enable", "teleport", "crossed"]), st.integers(0, 4))
+EVENT = st.tuples(st.sampled_from(["plain", "plain", "templated", "templated_partial", "establish", "enable", "teleport", "crossed"]), st.integers(0, 4))
 DECISION = st.sampled_from(["ignore", "ignore", "swallow", "one", "yes", "raise", "rewrite"])
 OP = st.one_of(
-    st.tuples(st.just("poll"), st.lists(EVENT, min_size=1, max_size=4), st.lists(DECISION, max_size=4), st.integers(0, 4).map(lambda i: i == 0),
+    st.tuples(st.just("poll"), st.lists(EVENT, min_size=1, max_size=4), st.lists(DECISION, max_size=4), st.integers(0, 7).map(lambda i: {0: 1, 1: 2}.get(i, 0)),
               st.just(200), st.just(False)),
     st.tuples(st.just("poll"), st.lists(EVENT, min_size=1, max_size=3), st.lists(st.just("swallow"), min_size=3, max_size=3), st.booleans(), st.just(200), st.just(False)),
     st.tuples(st.just("poll"), st.just([]), st.just([]), st.just(False), st.sampled_from([499, 502, 404]), st.just(False)),
